@@ -32,7 +32,10 @@ RULE = (
     'the 50-digit definition (or, for the non-orthogonal gravity path, against the same call in base units); distinct = distinct '
     '(kernel, units, dtypes, variant). Thorough tier: the same grid with the wide unit alphabet, repeated at every physical point of '
     'POINTS / GRAVITY_POINTS / GEOM_SCALES (point 0 = base point), plus per dtype combination one call with all points as 1-d '
-    'operands, plus event data in each operand position in turn.'
+    'operands, plus event data in each operand position in turn. Event-data grid (both tiers, base point): binned position sets = '
+    'each operand alone and all operands together; dtype of every operand (binned or dense) ranges over {float64, float32} '
+    '(thorough: + int64 one operand at a time); oracle = dtype contract + unit + 50-digit definition per event + agreement within '
+    '1 ulp with the dense call on the same numbers.'
 )
 ASSUMPTIONS = [
     'h, m_n, eV->J as scipp exposes them (ref/hp.py); references evaluated on the values the kernel received',
@@ -53,13 +56,16 @@ ASSUMPTIONS = [
 ]
 BOUND = {
     'quick': '11 TOF kernels, 10 beamline kernels (2 gravity paths), 2 chopper-cascade kernels: all unit combinations x all dtype '
-    'combinations over {float64,float32,int64} plus int32 in one argument at a time; binned data operand per unit combination',
+    'combinations over {float64,float32,int64} plus int32 in one argument at a time; event data per unit combination at the base point: '
+    'every operand position binned (each alone and all together) x every {float64,float32} dtype combination of all operands, judged '
+    'against the dtype contract, the definition and the dense call on the same numbers',
     'thorough': 'wide unit alphabet (length mm/m/km/angstrom/um/nm/cm; wavelength angstrom/nm/m/um/pm; energy ueV/meV/eV/keV/J; Q + 1/um) '
     'x the full {float64,float32,int64,int32}^n dtype grid x several physical points per kernel (5 for the elastic kernels: base, both ends '
     'of 1e-9..1e9 SI and the two crossed ends, scattering angles 1e-6 / 1 / 60 / 179 / 180 deg; 6 flights for the inelastic kernels: base, '
     'scaled 1e-6 and 1e6, 5 ueV and 5 eV neutrons, arrival before t0; 4 for gravity (0.5..2000 angstrom, scattered beam x 1/4..8, two '
     'gravity strengths), propagation and total length; positions x 2^-20, 1, 2^20 for the vector kernels) x layouts: 0-d per point, all '
-    'points as one 1-d call per dtype combination, event data in every operand position (float64 / float32), broadcast and binned '
+    'points as one 1-d call per dtype combination, event data in every operand position (float64 / float32) at every point and, at the '
+    'base point, every binned position set x every {float64,float32}^n combination + int64 in one operand at a time, broadcast and binned '
     'wavelength (incl. int64 events, int32 broadcast) for the gravity kernels',
 }
 REQUIRED_CLASSES = [
@@ -1084,7 +1090,8 @@ _LAYOUT_SITES = ['tof.chopper_cascade.propagate_times', 'tof.chopper_cascade.wav
                  'conversion.beamline.scattering_angles_with_gravity/orthogonal', 'conversion.beamline.scattering_angles_with_gravity/generic', 'conversion.beamline.scattering_angle_in_yz_plane']
 _cases_main, _run_case_main = cases, run_case
 RULE = RULE + ' Layout cases: every combination of operand layouts (0d / 1-d a / 1-d b / 2-d ab / 2-d stored ba) per kernel x unit-dtype variant, each followed by an in-place update of all operands and a second call.'
-REQUIRED_CLASSES = [*REQUIRED_CLASSES, 'layout_ok', 'reuse_after_inplace_update_ok', 'layout_transposed_operand', 'repeat_call_identical']
+REQUIRED_CLASSES = [*REQUIRED_CLASSES, 'layout_ok', 'reuse_after_inplace_update_ok', 'layout_transposed_operand', 'repeat_call_identical',
+                    'binned_secondary_ok', 'binned_equals_dense', 'binned_all_operands', 'binned_f64_secondary_with_f32_data', 'binned_f32_secondary_with_f64_data']
 
 
 def cases(tier):
@@ -1100,5 +1107,5 @@ def run_case(case, rec):
 
 REQUIRED_CLASSES = {
     'quick': list(REQUIRED_CLASSES),
-    'thorough': [*REQUIRED_CLASSES, 'extra_point', 'points_1d_ok', 'binned_secondary_ok', 'geom_scaled_point', 'int64_ok'],
+    'thorough': [*REQUIRED_CLASSES, 'extra_point', 'points_1d_ok', 'geom_scaled_point', 'int64_ok', 'binned_int64_ok'],
 }
